@@ -385,6 +385,7 @@ class PathRules:
                            "dispatched by the child's own metadata" if ok else
                            "child.%s() is not guarded by child.metadata().file_type == %s" % (rmname, want), s.line)
         n += self.ok_needs_effect(rep, rule)
+        n += self.argument_only_refusals(rep, rule)
         return n
 
     # ------------------------------------------------------------------ route selection (R11.2)
@@ -436,6 +437,62 @@ class PathRules:
                            "%s can answer %s without any mutating call of the backend having succeeded: the success is decided by "
                            "the arguments alone (a read-only backend no longer refuses it; a missing source is not reported)"
                            % (name, fmt(t)[:40]), cb.blocks[bb].term.line)
+        return n
+
+    def argument_only_refusals(self, rep, rule):
+        """the path type refuses a mutating call only because of what the filesystem says (the parent is missing / not a
+        directory, the destination exists, the backend's own answer) — never because of the path string alone (the root, an
+        empty name): which paths an operation applies to is the backend's decision, and it differs per backend (a read-only
+        one answers NotSupported for the root like for anything else)"""
+        n = 0
+        ops = ("create_dir", "create_file", "append_file", "remove_file", "remove_dir", "remove_dir_all", "create_dir_all",
+               "copy_file", "move_file", "copy_dir", "move_dir", "set_creation_time", "set_modification_time", "set_access_time")
+        roots = {}
+        for name in ops:
+            b, cbs = self.bodies(name)
+            if b is None:
+                continue
+            # the method, and the private helpers of the path type it calls (get_parent)
+            todo, seen = list(cbs), {c.id for c in cbs}
+            for cb in list(todo):
+                for s in self.inter.sites(cb):
+                    hb = self.inter.local_callee(s)
+                    if self.private_helper(hb) and hb.id not in seen:
+                        for hcb in self.inter.code_bodies(hb):
+                            if hcb.id not in seen:
+                                seen.add(hcb.id)
+                                todo.append(hcb)
+            for cb in todo:
+                roots.setdefault(cb.id, (cb, b, name))
+
+        def asks_fs(t):
+            for x in walk(t):
+                if x[0] == "call" and isinstance(x[1], str):
+                    nm = sname(x[1])
+                    if nm in ("exists", "metadata", "read_dir", "open_file", "is_file", "is_dir", "walk_dir") or nm in self.MUTATORS or \
+                            x[1].split("::")[0] in ("FileSystem", "AsyncFileSystem"):
+                        return True
+                if x[0] == "closure":
+                    return True
+            return False
+
+        def about_path(t):
+            return any((x[0] == "arg") or (x[0] == "field" and x[2] == "path") for x in walk(t))
+        for cid, (cb, b, name) in sorted(roots.items()):
+            for blk in cb.blocks:
+                if blk.cleanup:
+                    continue
+                for st in blk.stmts:
+                    if not (st.kind == "assign" and st.rv.kind == "agg" and st.rv.agg.get("adt") == "error::VfsErrorKind"):
+                        continue
+                    gs = self.guards(cb, blk.idx)
+                    fsg = [g for g in gs if asks_fs(g[1])]
+                    pag = [g for g in gs if not asks_fs(g[1]) and about_path(g[1]) and g[0] in ("bool", "inteq", "intne")]
+                    bad = bool(pag) and not fsg
+                    n += 1
+                    rep.ob(rule, b.id, "%s: %s is answered because of the filesystem's state" % (name, st.rv.agg.get("variant")), not bad,
+                           "" if not bad else "%s refuses with %s under a condition on the path string alone (%s): the backend is never asked"
+                           % (name, st.rv.agg.get("variant"), "; ".join(fmt_guard(g)[:50] for g in pag)), st.line)
         return n
 
     def fast_paths(self, rep, rule):
